@@ -94,6 +94,10 @@ func TestC16(t *testing.T) { withEnumeration(t, "C16", Monitors{M16: true}, genC
 type c06Case struct {
 	Base     Case `json:"base"`     // Progs[0] = {Open, target}; Progs[1] (optional) = survivor
 	Survivor bool `json:"survivor"` // a second process continues after the crash
+	// Early > 0: the survivor runs its first Early operations (Open, Read: nothing that
+	// commits) before the target process starts, so it continues after the crash on a
+	// handle whose view predates the interrupted operation.
+	Early int `json:"early,omitempty"`
 }
 
 var c06Targets = []int{KAdd, KAdd, KAddMulti, KCompactAll, KExpire, KAutoCompact, KClean, KClose, KAbandon, KCompactRange, KCompactRange}
@@ -109,11 +113,25 @@ func genC06(t *rapid.T) c06Case {
 	cc := c06Case{Base: c}
 	if rapid.IntRange(0, 2).Draw(t, "survivor") == 0 {
 		cc.Survivor = true
-		sp := drawProgs(t, 1, 3, []OpWeights{{KAdd: 4, KRead: 2, KCompactAll: 2, KClean: 1, KOpen: 1}}, hs, c.Cfg.Exact)[0]
+		early := rapid.Bool().Draw(t, "survivorOpensEarly")
+		w := OpWeights{KAdd: 4, KRead: 2, KCompactAll: 2, KClean: 1, KOpen: 1}
+		if early {
+			// what a handle with an outdated view may do to the directory
+			w = OpWeights{KClean: 3, KClose: 1, KCompactAll: 2, KAutoCompact: 1, KAdd: 2, KRead: 2}
+		}
+		sp := drawProgs(t, 1, 3, []OpWeights{w}, hs, c.Cfg.Exact)[0]
 		for i := range sp.Ops {
 			for j := range sp.Ops[i].Txs {
 				sp.Ops[i].Txs[j].Refs[0].Name = Str(fmt.Sprintf("refs/u/survivor/t%d.%d", i, j))
 			}
+		}
+		if early {
+			pre := []POp{{Kind: KOpen}}
+			if rapid.Bool().Draw(t, "earlyRead") {
+				pre = append(pre, POp{Kind: KRead})
+			}
+			sp.Ops = append(pre, sp.Ops...)
+			cc.Early = len(pre)
 		}
 		cc.Base.Progs = append(cc.Base.Progs, sp)
 	}
@@ -138,6 +156,7 @@ func propC06(cc c06Case, o *Obs) error {
 	target := cc.Base.Progs[0].Ops[1]
 	o.Class("target-" + target.String())
 	o.ClassIf(cc.Survivor, "with-survivor")
+	o.ClassIf(cc.Survivor && cc.Early > 0, "survivor-handle-predates-the-operation")
 	o.ClassIf(storesEqual(before, after) != "", "operation-changes-state")
 	o.Count("crash_points", n)
 	// 2. every crash point
@@ -145,6 +164,9 @@ func propC06(cc c06Case, o *Obs) error {
 		c := cc.Base
 		c.Crashes = []Crash{{Proc: 0, At: k}}
 		c.Sched = SchedSpec{Kind: "windowed", Order: []int{0, 1}[:len(c.Progs)]}
+		if cc.Early > 0 && len(c.Progs) > 1 {
+			c.Sched = SchedSpec{Kind: "ops", OpSegs: [][2]int{{1, cc.Early}, {0, 1000}, {1, 1000}}}
+		}
 		r := Exec(c, mon)
 		evals++
 		o.Evals = evals
